@@ -1689,3 +1689,21 @@ def control_atoms(facts, fn, site):
             continue
         atoms |= predicate_atoms(sw)
     return atoms
+
+
+def control_terms(facts, fn, site):
+    """like control_atoms, but one term per controlling switch ('a&b' = the atoms that switch tests), as a sorted
+    multiset — so dropping one conjunct is visible even when the same field is also tested elsewhere"""
+    sws = all_switches(facts, fn)
+    terms = []
+    for a in control_switches(facts, fn, site):
+        sw = sws.get(a)
+        if sw is None:
+            continue
+        t = fn.term(a)
+        if t.get('exp') and any(k in t['exp'] for k in ('trace', 'debug', 'event', 'span', 'warn', 'error!', 'info!')):
+            continue
+        at = predicate_atoms(sw)
+        if at:
+            terms.append('&'.join(sorted(at)))
+    return sorted(terms)
